@@ -140,6 +140,11 @@ func (w *depWorld) depositTx(c *depCase, tag uint32, coinbase bool) ([]byte, uin
 		o0, o1 := sim.RefDepositScriptsV1(key, magic, w.evm)
 		outs = []sim.BtcOut{{Value: c.Value, Script: o0}, {Value: 0, Script: o1}}
 	}
+	if has(c.Devs, "out:third-foreign") {
+		// a well-formed deposit in its first outputs, and a further, larger output to somebody else
+		// (the sender's change): the relayer claims that one
+		outs = append(outs, sim.BtcOut{Value: 5 * c.Value, Script: sim.RefSystemScript(w.keyOther)})
+	}
 	if coinbase {
 		return sim.CoinbaseTx(uint32(c.Height), outs...), 0
 	}
@@ -248,6 +253,8 @@ func (w *depWorld) build(c *depCase) *depBuilt {
 		case "out:wrong":
 			dep.OutputIndex = 1
 		case "out:range":
+			dep.OutputIndex = 2
+		case "out:third-foreign":
 			dep.OutputIndex = 2
 		case "ver:2":
 			dep.Version = 2
@@ -504,7 +511,7 @@ var c03Devs = []string{
 	"idx:+2^depth", "idx:+2^31", "idx:0", "idx:1", "idx:+1", "idx:-1",
 	"proof:truncate", "proof:extend", "proof:swap", "proof:bitflip", "proof:ragged",
 	"hdr:other-block", "hdr:bitflip", "hdr:79", "hdr:81", "hdr:unvoted-height", "hdr:voted-other-hash", "hdr:missing-for-height", "hdr:dup-height",
-	"out:wrong", "out:range", "ver:2", "ver:swap", "key:unregistered", "key:other-registered", "script:other-key", "key:nil",
+	"out:wrong", "out:range", "out:third-foreign", "ver:2", "ver:swap", "key:unregistered", "key:other-registered", "script:other-key", "key:nil",
 	"evm:other", "evm:19", "tx:size64", "tx:oversize", "tx:trailing-byte", "dup:in-batch", "nil:deposit", "sender:other",
 	"batch:after-genuine", "hdr:first-items-header", "script:other-witness-version",
 }
